@@ -119,7 +119,7 @@ def close(a, b, rtol=1e-10):
     return False, 'max abs difference %.3g (scale %.3g)' % (err, scale)
 
 
-def compare(ref, got, perm, shape, two_d, method, path='', out=None, stats=None, skeys=()):
+def compare(ref, got, perm, shape, two_d, method, path='', out=None, stats=None, skeys=(), rtol=None):
     """ref: result on sorted inputs; got: result on permuted inputs.  Collects (path, message)."""
     out = [] if out is None else out
     if method == 'individual_axes' and path in ('/params/params_rows', '/params/params_columns') \
@@ -148,14 +148,14 @@ def compare(ref, got, perm, shape, two_d, method, path='', out=None, stats=None,
             out.append((path, 'params keys differ: %s' % sorted(set(ref) ^ set(got if isinstance(got, dict) else ()))))
             return out
         for k in ref:
-            compare(ref[k], got[k], perm, shape, two_d, method, path + '/' + str(k), out, stats, skeys)
+            compare(ref[k], got[k], perm, shape, two_d, method, path + '/' + str(k), out, stats, skeys, rtol)
         return out
     if isinstance(ref, (list, tuple)) and not (len(ref) and np.isscalar(ref[0])):
         if not isinstance(got, (list, tuple)) or len(ref) != len(got):
             out.append((path, 'length differs'))
             return out
         for i, (u, v) in enumerate(zip(ref, got)):
-            compare(u, v, perm, shape, two_d, method, path + '[%d]' % i, out, stats, skeys)
+            compare(u, v, perm, shape, two_d, method, path + '[%d]' % i, out, stats, skeys, rtol)
         return out
     if ref is None or got is None:
         if ref is not got:
@@ -176,7 +176,7 @@ def compare(ref, got, perm, shape, two_d, method, path='', out=None, stats=None,
         exp = take_leading(a, perm, two_d)
     else:
         exp = take(a, perm, two_d) if is_pp else a
-    ok, info = close(exp, got, RTOL[bool(two_d)])
+    ok, info = close(exp, got, rtol if rtol is not None else RTOL[bool(two_d)])
     if stats is not None:
         stats['leaves'] = stats.get('leaves', 0) + 1
         if ok and info not in (None, 0.0):
@@ -385,7 +385,7 @@ def run_pair_1d(name, x, y, perm, build, with_logs=False):
     return res
 
 
-def run_pair_2d(name, x, z, y, perm, build, with_logs=False):
+def run_pair_2d(name, x, z, y, perm, build, with_logs=False, log_rtol=None):
     res = []
     logs = []
     px, pz = perm
@@ -405,12 +405,12 @@ def run_pair_2d(name, x, z, y, perm, build, with_logs=False):
     if with_logs:
         ld = None
         if not isinstance(res[0], str) and not isinstance(res[1], str) and not _uses_fabc(name, build):
-            ld = compare_logs(logs[0], logs[1], True)
+            ld = compare_logs(logs[0], logs[1], True, log_rtol)
         return res[0], res[1], ld
     return res
 
 
-def judge(ref, got, perm, shape, two_d, name, stats=None, skeys=None):
+def judge(ref, got, perm, shape, two_d, name, stats=None, skeys=None, rtol=None):
     """None when the property holds on this input, else a description."""
     if isinstance(ref, str) or isinstance(got, str):
         if isinstance(ref, str) and isinstance(got, str):
@@ -419,7 +419,7 @@ def judge(ref, got, perm, shape, two_d, name, stats=None, skeys=None):
             ref if isinstance(ref, str) else 'returns', got if isinstance(got, str) else 'returns')
     if skeys is None:
         skeys = sort_keys_of(name, two_d)
-    diffs = compare(ref, got, perm, shape, two_d, name, stats=stats, skeys=skeys)
+    diffs = compare(ref, got, perm, shape, two_d, name, stats=stats, skeys=skeys, rtol=rtol)
     if diffs:
         return '; '.join('%s: %s' % d for d in diffs[:3])
     return None
@@ -551,6 +551,94 @@ def oracle_functional(ctx, budget):
     return found
 
 
+RTOL_OPTIONS = {False: 1e-10, True: 1e-6}   # see oracle_options; observed maxima are recorded in the evidence notes
+EXTRA_PARAM_VALUES = {
+    'pad_kwargs': [{'mode': 'edge'}, {'mode': 'extrapolate', 'extrapolate_window': 5}],
+    'alpha_factor': [0.9], 'asymmetry': [3.0], 'height_scale': [0.5], 'constrained_weight': [10.0],
+}
+
+
+def option_variants(name, two_d):
+    """One-at-a-time NON-DEFAULT option variants of a method: harness/methods.py PARAM_VALUES applied to the
+    signature, plus a few options it does not list (pad_kwargs, ...)."""
+    out = list(M.param_variants(name, two_d))
+    pars = sig_params(name, two_d)
+    for par, vals in EXTRA_PARAM_VALUES.items():
+        if par in pars:
+            out += [{par: v} for v in vals]
+    return out
+
+
+def oracle_options(ctx, two_d, per_method, stats=None, with_weights=False):
+    """Every method under one-at-a-time non-default options (per_method=None: all of them; else a seeded sample),
+    random non-involutive permutation, compared with the sorted run."""
+    rng = ctx.rng
+    found = 0
+    dim = '2d' if two_d else '1d'
+    for name in M.method_names(two_d):
+        if name == 'interp_pts':
+            continue
+        vs = option_variants(name, two_d)
+        if per_method is not None and len(vs) > per_method:
+            vs = rng.sample(vs, per_method)
+        if not vs:
+            continue
+        if two_d:
+            m, n = rng.choice([(11, 14), (13, 12)])
+            x = distinct_x(rng, m, -3.0, 8.0)
+            z = distinct_x(rng, n, 10.0, 50.0)
+            _, _, y = M.make_z2d(nprng(rng), m, n)
+            mode = rng.choice(['x', 'z', 'xz', 'xz'])
+            perm = (rand_perm(rng, m) if 'x' in mode else np.arange(m), rand_perm(rng, n) if 'z' in mode else np.arange(n))
+            shape = (m, n)
+            wseed = rng.randrange(2 ** 31)
+            w = np.random.RandomState(wseed).uniform(0.05, 1.0, shape)
+        else:
+            n = rng.choice([41, 47, 53])
+            x = distinct_x(rng, n, rng.choice([0.0, -50.0]), rng.choice([100.0, 2000.0]))
+            y = y_1d(rng, x)
+            perm = rand_perm(rng, n)
+            shape = (n,)
+            wseed = rng.randrange(2 ** 31)
+            w = np.random.RandomState(wseed).uniform(0.05, 1.0, n)
+        pars = sig_params(name, two_d)
+        has_w = 'weights' in pars and name != 'collab_pls'
+        for opt in vs:
+            if two_d and 'max_iter' in pars and 'max_iter' not in opt:
+                # 2-D runs are not bit-identical (strided views): keep ill-conditioned / long iterations from
+                # amplifying the rounding noise; an ordering defect shows in the first passes
+                opt = dict(opt, max_iter=2)
+                if 'max_iter_2' in pars:
+                    opt['max_iter_2'] = 2
+            for use_w in ((False, True) if (with_weights and has_w) else (False,)):
+                def build(p, opt=opt, use_w=use_w):
+                    kw = dict(opt)
+                    if use_w:
+                        kw['weights'] = w if p is None else (take(w, p, True) if two_d else w[p])
+                    return kw
+                if two_d:
+                    ref, got, ld = run_pair_2d(name, x, z, y, perm, build, with_logs=True, log_rtol=RTOL_OPTIONS[True])
+                else:
+                    ref, got, ld = run_pair_1d(name, x, y, perm, build, with_logs=True)
+                label = 'option:%s%s' % (sorted(opt.items()), '+weights' if use_w else '')
+                ctx.case(('opt', dim, name, label, shape, tuple(np.asarray(perm[0] if two_d else perm)[:5])),
+                         nontrivial=not isinstance(ref, str), kind='oracle%s:options' % dim)
+                err = judge(ref, got, perm, shape, two_d, name, stats, rtol=RTOL_OPTIONS[two_d]) or ld
+                if err:
+                    found += 1
+                    par = sorted(k for k in opt if not (two_d and k in ('max_iter', 'max_iter_2') and len(opt) > 1))[0]
+                    case = {'kind': 'options', 'two_d': two_d, 'method': name, 'opt': {k: repr(v) for k, v in opt.items()},
+                            'weights': use_w, 'wseed': wseed, 'x': [float(v) for v in x], 'y': np.asarray(y).tolist(),
+                            'perm': [[int(v) for v in q] for q in perm] if two_d else [int(v) for v in perm]}
+                    if two_d:
+                        case['z'] = [float(v) for v in z]
+                    ctx.fail('order:%s:%s:option:%s' % (dim, name, par),
+                             '%s(...).%s(y[perm], %s%s) is not the permuted result of the sorted call (shape %s): %s'
+                             % ('Baseline2D' if two_d else 'Baseline', name, ', '.join('%s=%r' % kv for kv in opt.items()),
+                                ', weights=w[perm]' if use_w else '', shape, err), case)
+    return found
+
+
 # ------------------------------------------------------------------------------------------------ setup log
 class SetupLog:
     """Records the weight array every _setup_* call returns (the array that reaches the solves).  On permuted
@@ -589,20 +677,25 @@ class SetupLog:
         return False
 
 
+LOG_EXEMPT = {'fabc', 'rubberband'}
+
+
 def _uses_fabc(name, build):
-    """fabc hands its internally built (sorted) mask to _setup_whittaker, which sorts it again, and un-sorts the
-    returned array afterwards (rows [OSort; OUnsort] of the flow table): the array RETURNED by the setup call is
-    legitimately not the one of the sorted run, so the log comparison does not apply (the outputs are compared)."""
-    return name == 'fabc' or build(None).get('method') == 'fabc'
+    """fabc and rubberband (lam > 0) hand an internally built mask, already in sorted order, to _setup_whittaker, which
+    sorts it again as if it were user input; fabc un-sorts the returned array afterwards (rows [OSort; OUnsort] of the
+    flow table), rubberband discards it and uses its own mask.  The array RETURNED by that setup call is legitimately
+    not the one of the sorted run, so the log comparison does not apply there (the outputs are compared; using the
+    returned array without compensation is what C02_flow_table rejects)."""
+    return name in LOG_EXEMPT or build(None).get('method') in LOG_EXEMPT
 
 
-def compare_logs(a, b, two_d):
+def compare_logs(a, b, two_d, rtol=None):
     if len(a) != len(b):
         return 'number of _setup_* calls differs: %d vs %d' % (len(a), len(b))
     for i, ((n1, w1), (n2, w2)) in enumerate(zip(a, b)):
         if n1 != n2:
             return 'call %d: %s vs %s' % (i, n1, n2)
-        ok, info = close(w1, w2, RTOL[bool(two_d)])
+        ok, info = close(w1, w2, rtol if rtol is not None else RTOL[bool(two_d)])
         if not ok:
             return 'the weight array returned by %s (call %d) differs from the sorted run: %s' % (n1, i, info)
     return None
@@ -1245,6 +1338,14 @@ def run(ctx):
     f1 = oracle_1d(ctx, b1, stats=stats)
     f2 = oracle_2d(ctx, b2, stats=stats)
     f3 = oracle_functional(ctx, b1)
+    thorough = ctx.tier == 'thorough' or stressed
+    f4 = oracle_options(ctx, False, None, stats=stats, with_weights=thorough)
+    f5 = oracle_options(ctx, True, None if thorough else 5, stats=stats, with_weights=ctx.tier == 'thorough')
+    ctx.note('one-at-a-time non-default options (harness/methods.py PARAM_VALUES + pad_kwargs etc.): 1-D all %d variants%s '
+             '(%d failing); 2-D %s (max_iter / max_iter_2 capped at 2, rtol 1e-6; observed maximum over 8 full sweeps 8.5e-12) '
+             '(%d failing)' % (sum(len(option_variants(nm, False)) for nm in M.method_names() if nm != 'interp_pts'),
+                               ' x {without, with user weights}' if thorough else '', f4,
+                               'all variants' if thorough else 'a seeded sample of 5 per method', f5))
     ctx.traces = stats.get('logs', 0)
     ctx.note('functional interface (x_data=...): %d failing' % f3)
     ctx.note('metamorphic oracle: 1-D budget x%d (%d failing), 2-D budget x%d (%d failing); %d compared leaves, %d not '
@@ -1292,6 +1393,31 @@ def replay(rep):
         ref, got, logs = run_pair_2d(case['method'], x, z, y, (px, pz), build, with_logs=True)
         err = judge(ref, got, (px, pz), tuple(case['shape']), True, case['method']) or logs
         print('replay 2-D %s(%s):' % (case['method'], case['label']), err or 'property holds on this input')
+        return 1 if err else 0
+    if kind == 'options':
+        two_d = case['two_d']
+        opt = {k: eval(v, {'inf': float('inf'), 'nan': float('nan')}) for k, v in case['opt'].items()}
+        x = np.array(case['x'])
+        y = np.array(case['y'])
+        shape = y.shape
+        w = np.random.RandomState(case['wseed']).uniform(0.05, 1.0, shape if two_d else shape[0])
+        if two_d:
+            perm = (np.array(case['perm'][0], dtype=np.intp), np.array(case['perm'][1], dtype=np.intp))
+        else:
+            perm = np.array(case['perm'], dtype=np.intp)
+
+        def build(p):
+            kw = dict(opt)
+            if case['weights']:
+                kw['weights'] = w if p is None else (take(w, p, True) if two_d else w[p])
+            return kw
+        if two_d:
+            ref, got, ld = run_pair_2d(case['method'], x, np.array(case['z']), y, perm, build, with_logs=True,
+                                       log_rtol=RTOL_OPTIONS[True])
+        else:
+            ref, got, ld = run_pair_1d(case['method'], x, y, perm, build, with_logs=True)
+        err = judge(ref, got, perm, shape, two_d, case['method'], rtol=RTOL_OPTIONS[two_d]) or ld
+        print('replay %s %s(%s):' % ('2-D' if two_d else '1-D', case['method'], opt), err or 'property holds on this input')
         return 1 if err else 0
     if kind == 'functional':
         print('replay: functional-interface case %s; re-run ./bin/check C02 quick to reproduce (inputs are in the file)' % case.get('label'))
